@@ -2,6 +2,13 @@ from replay.common import pysam_mk
 from spec import c04 as S
 
 
+def _store(name):
+    import pysam
+    seg = pysam.AlignedSegment()
+    seg.query_name = name
+    return seg.query_name
+
+
 def replay(args, outdir):
     from singlecellmultiomics.universalBamTagger.universalBamTagger import QueryNameFlagger
     from singlecellmultiomics.modularDemultiplexer.demultiplexModules.NLAIII import NLAIII_384w_c8_u3
@@ -24,7 +31,7 @@ def replay(args, outdir):
         elif lemma == 'L4_pipeline_pools':
             clause = S.pipeline_clause(pysam_mk, QueryNameFlagger, [NLAIII_384w_c8_u3, CELSeq2_c8_u6][a['strategy']], a['ui'], a['qi'], a['li'], a['ii'], a['bi'])
         else:
-            clause = S.length_guard_clause(a['n'])
+            clause = S.length_guard_clause(a['n'], store=_store)
     except Exception as e:
         clause = 'raises.' + type(e).__name__
         exc = repr(e)
